@@ -30,9 +30,15 @@ def classify_syntax_error(stub, err):
     return "stub-is-not-valid-python", line
 
 
+def _tname(t):
+    return t if isinstance(t, str) else t.__name__
+
+
 def user_types(cs):
+    """What the user defined: every name the default cstruct object does not have, and every default name that was
+    re-bound to something else (add_type(..., replace=True))."""
     empty = lib.cstruct()
-    return {n: t for n, t in cs.typedefs.items() if n not in empty.typedefs}
+    return {n: t for n, t in cs.typedefs.items() if n not in empty.typedefs or _tname(t) != _tname(empty.typedefs[n])}
 
 
 def hint_base(hint):
@@ -84,6 +90,32 @@ def judge(ctx, cs, text, label, detail_extra=None):
         ctx.violation("stub", sig, dict(det, error=lib.exc_sig(e)))
         return
     det["stub"] = stub
+    # generating is a function of the definitions and the requested names only: the same text again after other stubs
+    # were produced from the same object (single structures / enums with their own prefixes, the whole object under
+    # another class name), and the other class name consistently throughout
+    try:
+        from dissect.cstruct import types as _types
+        from dissect.cstruct.tools import stubgen as _sg
+
+        for _n, _t in list(user_types(cs).items())[:8]:
+            if isinstance(_t, type) and issubclass(_t, _types.Structure):
+                _sg.generate_structure_stub(_t)
+            elif isinstance(_t, type) and issubclass(_t, (_types.Enum, _types.Flag)):
+                _sg.generate_enum_stub(_t)
+        other = _sg.generate_cstruct_stub(cs, cls_name="vf_other_cls")
+        again = stub_of(cs)
+        ctx.event("stub_histories")
+        if again != stub:
+            ctx.violation("history", "stub-text-depends-on-stubs-generated-before", dict(det, again=again))
+            return
+        head, _, body_ = stub.partition("\n")
+        expected_other = head.replace("class cstruct(", "class vf_other_cls(", 1) + "\n" + body_.replace("cstruct.", "vf_other_cls.")
+        if other != expected_other:
+            ctx.violation("history", "stub-under-another-class-name-differs-beyond-the-name", dict(det, other=other))
+            return
+    except Exception as e:  # noqa: BLE001
+        ctx.violation("history", f"repeated-stub-generation-raises:{type(e).__name__}", dict(det, error=lib.exc_sig(e)))
+        return
     try:
         tree = ast.parse(stub)
     except SyntaxError as e:
@@ -257,6 +289,10 @@ def special_forms(ctx):
         ("tagged-inline-members", "struct G { uint8 g; };\nstruct T { struct Inner { uint8 a; struct Deep { uint8 q; } deep[2]; "
                                   "} x; union Variant { uint8 a; uint16 b; } v[2]; G gs[2]; G *gp; G one; struct { uint8 z; }; "
                                   "struct { uint16 w; G g2; } anon_named; };", None),
+        ("replaced-builtin-aliases", "struct q { uint8 a; };\nenum RE : uint8 { RA, RB };",
+         lambda cs: (cs.add_type("BYTE", cs.uint16, replace=True), cs.add_type("WORD", "uint64", replace=True),
+                     cs.add_type("DWORD", cs.q, replace=True), cs.add_type("QWORD", "RE", replace=True),
+                     cs.load("struct T { BYTE a; WORD b; DWORD c; QWORD d; };"))),
         ("wchar-char-arrays", "struct T { char a[4]; wchar b[2]; char c[]; wchar d[]; char *s; uint8 **pp; };", None),
     ]
     for label, text, post in forms:
